@@ -10,10 +10,10 @@ import (
 )
 
 func init() {
-	register("P-ATOMIC-WRITE", "in every exported method with an io.Writer parameter the caller's writer is touched only by sink calls (or handed to another such method); every sink is outside loops, unreachable from the error edge of every fallible call, and writes the formatter's result or the private buffer", 10, ruleAtomicWrite)
+	register("P-ATOMIC-WRITE", "in every exported method with an io.Writer parameter the caller's writer is touched only by sink calls (or handed to another such method); every sink is outside loops, unreachable from the error edge of every fallible call, and writes the formatter's result or the private buffer", 10, func(c *Ctx) []Obligation { return rulePXEntries(c, "P-ATOMIC-WRITE") })
 	register("P-ERR-PROP", "every call in jen that returns an error has that error tested and, on the non-nil edge, returned (possibly wrapped) or panicked with on every path; ignoring is accepted only for writes into private in-memory buffers", 50, ruleErrProp)
-	register("P-FORMAT-GATE", "no path reaches the caller's writer without the success edge of format.Source (File.Render: or the NoFormat edge); the formatter runs once on the private buffer and both modes draw from the same buffer", 8, ruleFormatGate)
-	register("P-FRAGMENT", "RenderWithFile renders with the caller's File; Render delegates to RenderWithFile with a fresh File; GoString delegates to Render on a fresh buffer, panics on error and returns the buffer's text", 7, ruleFragment)
+	register("P-FORMAT-GATE", "no path reaches the caller's writer without the success edge of format.Source (File.Render: or the NoFormat edge); the formatter runs once on the private buffer and both modes draw from the same buffer", 8, func(c *Ctx) []Obligation { return rulePXEntries(c, "P-FORMAT-GATE") })
+	register("P-FRAGMENT", "RenderWithFile renders with the caller's File; Render delegates to RenderWithFile with a fresh File; GoString delegates to Render on a fresh buffer, panics on error and returns the buffer's text", 7, func(c *Ctx) []Obligation { return rulePXEntries(c, "P-FRAGMENT") })
 }
 
 func isErrorType(t types.Type) bool {
